@@ -105,6 +105,10 @@ def run(ctx: RunCtx) -> None:
                 thread_of_event.append((tag, cur.sid if cur else -1, ev[0]))
 
         world.hook = hook
+        # RpcServer's own lock (_transport_lock) must be a simulated one as well: _server.py is traced, so a pre-emption
+        # can land inside its critical section, and a real lock held by a parked thread blocks the next one for real
+        saved_server_threading = m_server.threading
+        m_server.threading = SimThreading(sched)  # type: ignore[assignment]
         server = RpcServer(svc.protocol, svc.impl_cls(), server_id="srv")
         probe = ServeProbe(server, ctx, sched)
         listener = FakeListener(sched)
@@ -147,6 +151,7 @@ def run(ctx: RunCtx) -> None:
             sched.run(root)
         finally:
             T.threading = saved_threading  # type: ignore[assignment]
+            m_server.threading = saved_server_threading  # type: ignore[assignment]
             world.hook = None
         ctx.absorb_sched(sched)
         labels = [[c.method + ":" + c.ending for c in s] for s in scripts]
